@@ -326,6 +326,12 @@ class World:
         self.mesh = build_mesh(doc["mesh"])
         self.region = build_region(self.mesh, doc.get("region"))
         self.field = build_field(self.region, doc.get("field", {}), self.seed)
+        if doc["mesh"].get("orphan_point") and pick(self.seed, "orphan-prepositioned", 2) == 0:
+            # the point without cells (its unknowns are held automatically) carries values of its own: a
+            # pre-positioned control point, a left-over of an earlier analysis
+            span_ = float((self.mesh.points.max(0) - self.mesh.points.min(0)).max())
+            v_ = self.field[0].values
+            v_[-1] = (0.1 * span_ * np.array([1.0, -0.5, 0.25]))[: v_.shape[1]]
         self.umats = []
         self.given_statevars = {}
         self.items = []
